@@ -377,8 +377,8 @@ PROPS["C10"] = {
     "technique": "socket-level property testing with self-identifying questions and answers: the real UDP batch engine and TCP stream listeners on loopback in front of a stub whose answer is a function of the question, many concurrent client sockets with generated windows, every received datagram / frame matched against that client's own outstanding questions; repeated under the race detector; the same for the DoH handler, and for the server's own DoT and DoQ listeners with TLS / QUIC clients",
     "level_text": ("The real listeners (UDP batch engine with inline fast path, 1-4 workers, send bursts; TCP stream with reply staging) serve the default chain over a stub resolver that answers a TXT RRset spelling the question name ('big' names produce ~9.5 KB answers, 'drop' names no reply, 'panic' names a panic inside the handler, 'slow' names a short delay). "
                    "4-24 UDP client sockets keep windows of 1-16 questions in flight, 40-300 each, cycling through cached names (answered inline on the reader) and uncached names (handed to workers), so that inline hits and worker sends from different clients overlap on the same socket; 0-4 TCP clients write pipelined bursts of 3-7 cached small and oversized (beyond the 8 KiB staging buffer) and uncached questions in one write. "
-                   "Cookies are on: two questions in three carry a client cookie that is a function of the question name, and a reply's COOKIE option must start with the cookie of the very question it answers (and be absent when the question carried none) - the per-query bytes that survive in pooled writers. One more TCP client steers reply sizes ('szNNNN-' names, measured on a side connection, which also caches them) so that the replies staged so far plus the next one come to the staging buffer's size exactly, or 1-3 octets either side. Oracle: every datagram a client receives decodes, carries the ID and question of one of its own outstanding questions and exactly that question's answer (or the recovery SERVFAIL), is the only reply to it, and nothing arrives for a client with nothing outstanding; on TCP reply i of a burst answers query i, whole, in query order. The same unit runs under -race (shared send state shows as a data race even when no datagram is misdirected). Exploration."),
-    "level_note": "Trusted: the stub's answer function and the client-side matching. Unit 'doh' drives the DoH handler (wire POST / GET and the JSON form) over plain HTTP/1.1 keep-alive connections shared by 4-24 goroutines - the handler, its per-exchange writer and the pooled chain objects, not TLS or HTTP/2 framing; Unit 'encrypted' binds the server's own DoT listener (the TCP stream engine behind tls.Listener) and DoQ listener (quic-go, one query per stream, reply ID 0) on loopback with a certificate made for the test: 1-6 DoT clients pipeline the TCP unit's bursts (plus a slow uncached question in front of cached ones, optional half-close), 1-4 QUIC connections run 3-16 rounds of 4-30 concurrent streams over cached, uncached, slow, oversized, dropped and panicking questions; every stream must carry nothing or exactly one whole length-prefixed reply with ID 0 answering the question asked on that stream. DoH over HTTP/2 or HTTP/3 framing is not driven. Unit 'shared-lookups' is C11's resolver-world unit (shared from C11): concurrent clients ask the same names, one in three in its own 0x20 spelling, against the real resolver's singleflight and the cache's dedup - every reply must carry the ID and the question, spelled as asked, of the client it goes to. Scheduling is whatever the kernel and the Go scheduler produce: detection of interleaving bugs is probabilistic, which is why the case count, client count and the race build are part of the unit. UDP loss on loopback is counted, not judged.",
+                   "Cookies are on: two questions in three carry a client cookie that is a function of the question name, and a reply's COOKIE option must start with the cookie of the very question it answers (and be absent when the question carried none) - the per-query bytes that survive in pooled writers. One more TCP client steers reply sizes ('szNNNN-' names, measured on a side connection, which also caches them) so that the replies staged so far plus the next one come to the staging buffer's size exactly, or 1-3 octets either side. Oracle: every datagram a client receives decodes, carries the ID and question of one of its own outstanding questions and exactly that question's answer (or the recovery SERVFAIL), is the only reply to it, and nothing arrives for a client with nothing outstanding; on TCP reply i of a burst answers query i, whole, in query order. Every reply is also walked the way a strict parser walks it: the four section counts of its header must account for the octets that follow, to the last one; and TCP bursts carry, after the connection's buffers have carried replies, frames the engine refuses at the header (a bare header with a foreign opcode, a query announcing two questions), whose reply must be the asker's ID, an error code and nothing the counts do not describe. The same unit runs under -race (shared send state shows as a data race even when no datagram is misdirected). Exploration."),
+    "level_note": "Trusted: the stub's answer function and the client-side matching. Unit 'doh' drives the DoH handler (wire POST / GET and the JSON form) over plain HTTP/1.1 keep-alive connections shared by 4-24 goroutines - the handler, its per-exchange writer and the pooled chain objects, not TLS or HTTP/2 framing; Unit 'encrypted' binds the server's own DoT listener (the TCP stream engine behind tls.Listener) and DoQ listener (quic-go, one query per stream, reply ID 0) on loopback with a certificate made for the test: 1-6 DoT clients pipeline the TCP unit's bursts (plus a slow uncached question in front of cached ones, optional half-close), 1-4 QUIC connections run 3-16 rounds of 4-30 concurrent streams over cached, uncached, slow, oversized, dropped and panicking questions; every stream must carry nothing or exactly one whole length-prefixed reply with ID 0 answering the question asked on that stream. DoH over HTTP/2 or HTTP/3 framing is not driven. Unit 'shared-lookups' is C11's resolver-world unit (shared from C11): concurrent clients ask the same names, one in three in its own 0x20 spelling, against the real resolver's singleflight and the cache's dedup - every reply must carry the ID and the question, spelled as asked, of the client it goes to, and (zones signed in half the cases, DO drawn per client) the published records shaped for that client alone: signatures for a client that set DO, none for one that did not, whoever it shared the lookup with. Unit 'shared-lookups-race' runs the same generator under the race detector, where a message handed to one request while another still copies from it is reported at the first overlap rather than when a copy happens to tear. Scheduling is whatever the kernel and the Go scheduler produce: detection of interleaving bugs is probabilistic, which is why the case count, client count and the race build are part of the unit. UDP loss on loopback is counted, not judged.",
     "rule": ("evaluations = socket sessions (one server lifetime each). Non-trivial = more than 50 UDP replies were matched, with inline hits and worker-handled misses in the same session; distinct = hash(parameters)."),
     "units": {"sockets": {"pkg": "./server", "run": "^TestVerifC10Sockets$", "tiers": {"quick": T(12, 4, timeout=900), "thorough": T(300, 6, timeout=3400)},
                           "floors": {"C10.sockets": {"inline-hits-and-worker-misses-together": 0.8, "tcp-pipelined-bursts": 0.5}}},
@@ -386,7 +386,8 @@ PROPS["C10"] = {
                       "floors": {"C10.doh": {"concurrent-http-exchanges": 0.7}}},
               "encrypted": {"pkg": "./server", "run": "^TestVerifC10Encrypted$", "tiers": {"quick": T(15, 4, timeout=900), "thorough": T(400, 6, timeout=3400)},
                             "floors": {"C10.encrypted": {"dot-pipelined-bursts": 0.8, "doq-concurrent-streams": 0.8}}},
-              "shared-lookups": {"pkg": "./server", "run": "^TestVerifC11OneReply$", "tiers": {"quick": T(300, 4, timeout=900), "thorough": T(8000, 8, timeout=3400)}},
+              "shared-lookups": {"pkg": "./server", "run": "^TestVerifC11OneReply$", "tiers": {"quick": T(800, 8, timeout=900), "thorough": T(8000, 8, timeout=3400)}},
+              "shared-lookups-race": {"pkg": "./server", "run": "^TestVerifC11OneReply$", "race": True, "tiers": {"quick": T(60, 4, timeout=900), "thorough": T(1500, 8, timeout=3400)}},
               "sockets-race": {"pkg": "./server", "run": "^TestVerifC10Sockets$", "race": True, "tiers": {"quick": T(4, 2, timeout=900), "thorough": T(60, 4, timeout=3400)}}},
     "share": ["C11"],
 }
